@@ -313,7 +313,9 @@ def check_property(prop, tier, seed, keep=False, verbose=False):
             for k, notes in ur.gen.shape_changed.items():
                 print("note: %s/%s: %s" % (un, k, "; ".join(notes)))
             for f in ur.failures:
-                if f["fn"] in ur.gen.shape_changed and f["kind"].startswith(("invariant", "loop_ensures", "termination")):
+                m_loop = re.match(r"loop(\d+)\.", f.get("label") or "")
+                keyed_ok = bool(m_loop) and int(m_loop.group(1)) in ur.gen.keyed_loops.get(f["fn"], set())
+                if f["fn"] in ur.gen.shape_changed and f["kind"].startswith(("invariant", "loop_ensures", "termination")) and not keyed_ok:
                     undecided.append("%s: %s failed after the loop structure of %s changed (%s): contract table needs updating" % (
                         un, f["id"], f["fn"], "; ".join(ur.gen.shape_changed[f["fn"]])))
                     continue
